@@ -11,7 +11,7 @@ LIBSRC = ["mdct", "smallft", "block", "envelope", "window", "lsp", "lpc", "analy
           "res0", "mapping0", "registry", "codebook", "sharedbook", "lookup", "bitrate", "vorbisfile", "vorbisenc"]
 SIMSRC = ["seams", "corpus", "craft", "main", "vfstream", "vfdamage", "vfsim", "vfgen", "pktsim", "encsim", "mtsim", "stubs"]
 SAN = "-fsanitize=address,integer-divide-by-zero,bounds -fno-sanitize-recover=integer-divide-by-zero,bounds -fno-omit-frame-pointer"
-CFLAGS = f"-O1 -g -gline-tables-only {SAN} -fsanitize-coverage=trace-pc-guard -DXIPH_VORBIS_VERIF -I{REPO}/include -I{REPO}/lib -w"
+CFLAGS = f"-O1 -g -gline-tables-only {SAN} -fsanitize-coverage=trace-pc-guard,pc-table -DXIPH_VORBIS_VERIF -I{REPO}/include -I{REPO}/lib -w"
 CXXFLAGS = f"-std=c++17 -O1 -g -gline-tables-only {SAN} -I{REPO}/include -I{REPO}/lib -I{VERIF}/sim -Wall -Wno-unused-function -Wno-unused-variable -Wno-unused-but-set-variable"
 LDFLAGS = f"{SAN} -Wl,--wrap=malloc,--wrap=calloc,--wrap=realloc,--wrap=free,--wrap=exit,--wrap=abort,--wrap=_exit /usr/lib/x86_64-linux-gnu/libogg.a -lm -lpthread"
 
